@@ -88,19 +88,11 @@ func entryArgs(es []OptEntry, nilAt int) []argmapper.Arg {
 // runOpts builds the target with defaults, calls it with the call options and
 // returns the per-parameter tokens.
 func runOpts(x *C16Case, defaults, callOpts []OptEntry, nilAt int) (engine.Outcome, map[string]int, error) {
-	w := engine.NewWorld()
-	dargs := entryArgs(defaults, -1)
-	tgt := x.Target
-	f, err := w.Realize(&tgt, dargs...)
-	if err != nil {
-		return engine.Outcome{}, nil, err
-	}
-	cargs := entryArgs(callOpts, nilAt)
-	if nilAt >= len(callOpts) {
-		cargs = append(cargs, nil)
-	}
-	cargs = append(cargs, engine.Quiet())
-	o := w.Call(f, cargs)
+	o, got, _, err := runOptsSeq(x, defaults, callOpts, nilAt, false)
+	return o, got, err
+}
+
+func tokensOf(o engine.Outcome) map[string]int {
 	got := map[string]int{}
 	for _, ev := range o.Events {
 		if ev.Func == engine.TargetID {
@@ -109,7 +101,72 @@ func runOpts(x *C16Case, defaults, callOpts []OptEntry, nilAt int) (engine.Outco
 			}
 		}
 	}
-	return o, got, nil
+	return got
+}
+
+// runOptsSeq: like runOpts, and with followUp two more calls on the SAME Func
+// with the SAME option objects: first with only the logger (defaults must
+// apply, nothing of the first call may linger), then the first call again.
+// It returns a description of the first deviation in the follow-up calls.
+func runOptsSeq(x *C16Case, defaults, callOpts []OptEntry, nilAt int, followUp bool) (engine.Outcome, map[string]int, string, error) {
+	w := engine.NewWorld()
+	dargs := entryArgs(defaults, -1)
+	tgt := x.Target
+	f, err := w.Realize(&tgt, dargs...)
+	if err != nil {
+		return engine.Outcome{}, nil, "", err
+	}
+	cargs := entryArgs(callOpts, nilAt)
+	if nilAt >= len(callOpts) {
+		cargs = append(cargs, nil)
+	}
+	cargs = append(cargs, engine.Quiet())
+	o := w.Call(f, cargs)
+	got := tokensOf(o)
+	if !followUp || nilAt >= 0 || o.Panic != "" || o.Err != nil {
+		return o, got, "", nil
+	}
+	// expected with defaults only
+	wantD := map[string]int{}
+	for _, e := range defaults {
+		if !e.NilValue {
+			wantD[optKey(e.L)] = e.Tok
+		}
+	}
+	complete := true
+	for _, p := range x.Target.In {
+		if _, ok := wantD[optKey(p)]; !ok {
+			complete = false
+		}
+	}
+	o2 := w.Call(f, []argmapper.Arg{engine.Quiet()})
+	if o2.Panic != "" {
+		return o, got, "second call (defaults only) panicked: " + o2.Panic, nil
+	}
+	if complete {
+		if o2.Err != nil {
+			return o, got, fmt.Sprintf("second call on the same Func with defaults only failed although every parameter has a default: %.150s", o2.ErrS), nil
+		}
+		g2 := tokensOf(o2)
+		for _, p := range x.Target.In {
+			if k := optKey(p); g2[k] != wantD[k] {
+				return o, got, fmt.Sprintf("second call on the same Func with defaults only: parameter %s received #%d, its default is #%d (a value of the first call lingered)", p, g2[k], wantD[k]), nil
+			}
+		}
+	} else if o2.Err == nil {
+		return o, got, "second call on the same Func without call options succeeded although some parameter has neither a default nor a call value (a value of the first call lingered)", nil
+	}
+	o3 := w.Call(f, cargs)
+	if o3.Panic != "" || o3.Err != nil {
+		return o, got, fmt.Sprintf("third call (the first call's options again) failed: %s %.100s", o3.Panic, o3.ErrS), nil
+	}
+	g3 := tokensOf(o3)
+	for _, p := range x.Target.In {
+		if k := optKey(p); g3[k] != got[k] {
+			return o, got, fmt.Sprintf("third call with the first call's option objects: parameter %s received #%d, the first call injected #%d", p, g3[k], got[k]), nil
+		}
+	}
+	return o, got, "", nil
 }
 
 func evalC16(c *engine.Case) engine.Verdict {
@@ -226,10 +283,17 @@ func evalC16(c *engine.Case) engine.Verdict {
 		}
 		v.Class("nil-default-option")
 	}
-	o, got, err := runOpts(&x, x.Opts[:x.Split], x.Opts[x.Split:], x.NilOpt)
+	o, got, seqMsg, err := runOptsSeq(&x, x.Opts[:x.Split], x.Opts[x.Split:], x.NilOpt, true)
 	if err != nil {
 		v.Failf("NewFunc with non-nil default options failed: %v", err)
 		return v
+	}
+	if seqMsg != "" {
+		v.Failf("%s", seqMsg)
+		return v
+	}
+	if x.NilOpt < 0 {
+		v.Class("follow-up-calls-on-same-func")
 	}
 	if o.Panic != "" {
 		v.Failf("Call panicked: %s", o.Panic)
